@@ -80,6 +80,11 @@ def _sum_strategy(tier):
             "forcing": draw(gen.vector_field_spec(dim, kinds=fk, max_mag_exp=5)),
             "free_stream": draw(st.lists(gen.floats(-2.0, 2.0, 32), min_size=dim, max_size=dim)),
             "dt_frac": draw(gen.floats(0.1, 2.0, 32)),
+            # what a real run does around the step under test: an earlier step on the same object (dirty scratch buffers),
+            # public queries between setting the state and stepping, dt taken from the simulator itself
+            "prelude": draw(st.lists(st.sampled_from(["prev_step", "query_dt", "query_div"]), max_size=3, unique=True)),
+            "dt_from_sim": draw(st.booleans()),
+            "prev_primary": draw(gen.vector_field_spec(ncomp, kinds=["noise", "mixed", "constant"], max_mag_exp=4)),
         }
 
     return case()
@@ -97,13 +102,30 @@ def _sum_body(case, ctx):
         sim = simcfg.build_sim(cfg)
     dx = float(sim.dx)
     prim = simcfg.primary_field_of(sim, cfg)
+    is_ns = kind.startswith("ns")
+    prelude = list(case.get("prelude", []))
+    if "prev_step" in prelude:
+        # an earlier step of the same object on unrelated (non-compact) data: leaves every scratch buffer dirty
+        pp = gen.build_vector_field(case["prev_primary"], shape, real_t)
+        prim[...] = pp[0] if prim.ndim == dim else pp
+        sim.velocity_field[...] = gen.build_vector_field(case["velocity"], shape, real_t)
+        um = float(np.max(np.sum(np.abs(sim.velocity_field.astype(np.float64)), axis=0)))
+        with ctx.repo_call("earlier time_step on the same simulator"):
+            if is_ns:
+                sim.time_step(dt=simcfg.stable_dt(cfg, dx, um, 0.5), free_stream_velocity=np.array(case["free_stream"]))
+            else:
+                sim.time_step(dt=simcfg.stable_dt(cfg, dx, um, 0.5))
     pf = gen.build_vector_field(case["primary"], shape, real_t, margin=m)
     prim[...] = pf[0] if prim.ndim == dim else pf
     sim.velocity_field[...] = gen.build_vector_field(case["velocity"], shape, real_t)
-    is_ns = kind.startswith("ns")
     fterm = 0.0
     umax = float(np.max(np.sum(np.abs(sim.velocity_field.astype(np.float64)), axis=0)))
-    dt = simcfg.stable_dt(cfg, dx, umax, case["dt_frac"])
+    with ctx.repo_call("public queries before the step"):
+        if "query_dt" in prelude:
+            sim.compute_stable_timestep()
+        if "query_div" in prelude and kind == "ns3d":
+            sim.get_vorticity_divergence_l2_norm()
+        dt = simcfg.choose_dt(sim, cfg, dx, umax, case["dt_frac"], bool(case.get("dt_from_sim", False)))
     if is_ns and cfg["with_forcing"]:
         sim.eul_grid_forcing_field[...] = gen.build_vector_field(case["forcing"], shape, real_t, margin=m)
         fterm = dt / (2 * dx * cfg["rho"]) * 4 * float(np.sum(np.abs(sim.eul_grid_forcing_field.astype(np.float64))))
@@ -131,7 +153,8 @@ def _sum_body(case, ctx):
     u = sim.velocity_field.astype(np.float64) if not is_ns else gen.build_vector_field(case["velocity"], shape, np.float64)
     both = all(bool(np.any(u[c] > 0)) and bool(np.any(u[c] < 0)) for c in range(dim))
     changed = float(np.max(np.abs(p1 - p0))) > 1e-3 * float(np.max(np.abs(p0)) + 1e-300)
-    ctx.note(nontrivial=both and changed and absum > 0, labels=simcfg.config_labels(cfg))
+    ctx.note(nontrivial=both and changed and absum > 0,
+             labels=simcfg.config_labels(cfg) + [f"prelude_{q}" for q in prelude] + (["dt_from_simulator"] if case.get("dt_from_sim") else []))
 
 
 # ------------------------------------------------------------------------------------------------
